@@ -868,6 +868,11 @@ func runTrie(t *testing.T, c *Case) *Outcome {
 			o.violate("C19", "panic", si, 0, attrs(s.K), "%s(%q) panicked: %s", s.K, s.T, p)
 			return o
 		}
+		// querying is not guaranteed to be free of side effects on the store (lazily allocated
+		// nodes): in "sparse" runs the store is only looked at by the queries at the end
+		if c.knob("sparse_verify", 0) == 1 && s.K != "get" && s.K != "all" {
+			continue
+		}
 		if !verify(si, s.K) {
 			return o
 		}
@@ -899,6 +904,9 @@ var c19Keys = []string{"a", "a/b", "a/b/c", "a/c", "b"}
 
 func genC19(r *Rand, tier, profile string) *Case {
 	c := &Case{Profile: "trie", Knobs: map[string]int64{"store": int64(r.Intn(2))}}
+	if r.Bool(0.5) {
+		c.Knobs["sparse_verify"] = 1
+	}
 	n := r.Range(1, 6)
 	if tier == "thorough" && r.Bool(0.5) {
 		n = r.Range(1, 20)
@@ -954,7 +962,7 @@ func init() {
 		Real: []string{"wasp/ack.Queue", "wasp/expiration pqList, bucket, skip list", "gotomic.Hash"}, Stub: []string{"time: synthetic deadlines and sweep instants passed as parameters", "callbacks: recorders"},
 		Assume: []string{"'honoured to the second': a sweep must fire entries whose deadline passed more than 1 s ago and must not fire entries whose deadline is more than 1 s ahead; in between either is accepted"}})
 	register(&Check{ID: "C19", Level: "exploration", Build: "maporder", Gen: genC19, Run: runTrie, QuickS: 10, ThoroughS: 200,
-		Rule: "a case = up to 6 (thorough: 20) insert/replace/remove/upsert operations over keys with shared prefixes on the retained store or the subscription index, a dump/load rebuild at a random position, then every key queried; after every operation every key of the universe, the count and the iteration are compared with a Go map; non-trivial when >=2 steps; distinct by hash of (store, history)",
+		Rule: "a case = up to 6 (thorough: 20) insert/replace/remove/upsert operations over keys with shared prefixes on the retained store or the subscription index, a dump/load rebuild at a random position, then every key queried; after every operation (or, in half of the cases, only at the end, since queries may themselves touch the store) every key of the universe, the count and the iteration are compared with a Go map; non-trivial when >=2 steps; distinct by hash of (store, history)",
 		Real: []string{"topics.Store (tree, node, protobuf dump)", "subscriptions.Tree (tree, node, protobuf dump)", "wasp/format.Topic tokenizer"}, Stub: []string{"none"},
 		Assume: []string{"keys are non-empty topic strings without wildcards and without empty levels (C01 covers matching and empty levels)", "the only restart-like event these packages offer is the dump/load round trip"}})
 }
